@@ -152,6 +152,9 @@ Example C02_by_name_forms_example :
   gen_lingo (reify_e en 0 e) 0 = "the width of x(the frameLabel, s)" /\
   gen_lingo (reify_e en 0 (ETheN 3)) 0 = "the ink" /\
   parse_expr 20 (strip (pp_tok en e)) = Some (e, []) /\
+  (* field <expression> (EField, 1B) *)
+  gen_lingo (reify_e en 0 (EBin Concat (EField (ELoc 0)) (EInt 1))) 0 = "(field s & 1)" /\
+  parse_expr 9 (strip (pp_tok en (EField (ELoc 0)))) = Some (EField (ELoc 0), []) /\
   (* a key / mouse / date property (EKey: empty argument list, then 66 n) *)
   compile_e (EKey 1) = [Byte.x43; Byte.x00; Byte.x66; Byte.x01] /\
   gen_lingo (reify_e en 0 (EKey 1)) 0 = "the frameLabel" /\
